@@ -380,9 +380,14 @@ func (g *igen) execMask() uint64 {
 }
 
 func (g *igen) fpMods(d *isaenc.Desc, e *isaspec.Entry, nsrc int) {
+	// v_cndmask_b32_e64 selects untyped 32-bit values, but its VOP3 encoding honours the float
+	// input modifiers on the two data sources (compilers select -x or |x| with it)
+	takesMods := func(i int) bool {
+		return e.Src[i].IsFloat() || (d.Format == isaenc.VOP3a && d.Opcode == 256 && i < 2)
+	}
 	anyF := false
 	for i := 0; i < nsrc; i++ {
-		if e.Src[i].IsFloat() {
+		if takesMods(i) {
 			anyF = true
 		}
 	}
@@ -390,7 +395,7 @@ func (g *igen) fpMods(d *isaenc.Desc, e *isaspec.Entry, nsrc int) {
 		return
 	}
 	for i := 0; i < nsrc; i++ {
-		if !e.Src[i].IsFloat() {
+		if !takesMods(i) {
 			continue
 		}
 		if g.oneIn(3, "neg") {
